@@ -140,7 +140,11 @@ func genModuli(t *rapid.T, logN int, nthRoot uint64, xs, xe h.DistSpec, req modR
 
 func genBGVSet(t *rapid.T, req modReq) BGVSet {
 	var s BGVSet
-	s.P.LogN = rapid.IntRange(4, maxLogN()).Draw(t, "logN")
+	big := 9 // sums over up to N terms
+	if req.terms == 1 {
+		big = 10
+	}
+	s.P.LogN = genLogN(t, big)
 	s.P.NTT = true
 	n := s.P.N()
 	// plaintext modulus: t = 1 mod 2^(logT+1) with logT in 3..logN (fewer slots than N when logT < logN)
@@ -215,6 +219,21 @@ func (c *bgvCtx) encrypt(vals []uint64, level int) (*rlwe.Ciphertext, error) {
 	return ct, nil
 }
 
+// usedReceiver returns a ciphertext with an earlier life: a genuine encryption of unrelated values at the given level
+// under another plaintext scale. Operations writing into it must overwrite data, level and metadata.
+func (c *bgvCtx) usedReceiver(level int, seed uint64) (*rlwe.Ciphertext, error) {
+	pt := bgv.NewPlaintext(c.params, level)
+	pt.Scale = c.params.NewScale(7)
+	if err := c.ecd.Encode(distinctVals(seed^0x5bd1e995, c.slots, c.set.P.T), pt); err != nil {
+		return nil, h.Failf("C11:bgv:encode", "Encode: %v", err)
+	}
+	ct, err := c.enc.EncryptNew(pt)
+	if err != nil {
+		return nil, h.Failf("C11:bgv:encrypt", "EncryptNew: %v", err)
+	}
+	return ct, nil
+}
+
 func (c *bgvCtx) decrypt(ct *rlwe.Ciphertext) ([]uint64, error) {
 	out := make([]uint64, c.slots)
 	if err := c.ecd.Decode(c.dec.DecryptNew(ct), out); err != nil {
@@ -250,6 +269,24 @@ func distinctVals(seed uint64, slots int, t uint64) []uint64 {
 		out[i] = (r + b) % t
 	}
 	return out
+}
+
+func mulModU(a, b, t uint64) uint64 {
+	hi, lo := bits.Mul64(a%t, b%t)
+	_, r := bits.Div64(hi, lo, t)
+	return r
+}
+
+// invModU is a^-1 modulo the prime t.
+func invModU(a, t uint64) uint64 {
+	r, e := uint64(1), t-2
+	for a %= t; e > 0; e >>= 1 {
+		if e&1 == 1 {
+			r = mulModU(r, a, t)
+		}
+		a = mulModU(a, a, t)
+	}
+	return r
 }
 
 func firstDiff(a, b []uint64) int {
@@ -342,6 +379,13 @@ func runBGVRot(c BGVRotCase, rec *h.Rec) error {
 	}
 	keys := keysFor(ctx.kgen, ctx.sk, galEls, c.Set.Bpw2, c.Set.Keys)
 	eval := bgv.NewEvaluator(p, keys)
+	snap := snapshot(ctx.sk, keys)
+	// one receiver for all out-of-place calls of the case: it starts as a genuine ciphertext at the maximum level under
+	// another scale and then carries the previous result
+	recv, err := ctx.usedReceiver(p.MaxLevel(), c.Seed)
+	if err != nil {
+		return err
+	}
 
 	check := func(op string, got *rlwe.Ciphertext, want []uint64, detail string) error {
 		have, err := ctx.decrypt(got)
@@ -363,7 +407,7 @@ func runBGVRot(c BGVRotCase, rec *h.Rec) error {
 		for _, k := range c.Ks {
 			var out *rlwe.Ciphertext
 			if c.Mode == "cols" {
-				out = bgv.NewCiphertext(p, 1, c.Level)
+				out = recv
 				err = eval.RotateColumns(ct, k, out)
 			} else {
 				out, err = eval.RotateColumnsNew(ct, k)
@@ -391,7 +435,7 @@ func runBGVRot(c BGVRotCase, rec *h.Rec) error {
 	case "rows", "rowsNew":
 		var out *rlwe.Ciphertext
 		if c.Mode == "rows" {
-			out = bgv.NewCiphertext(p, 1, c.Level)
+			out = recv
 			err = eval.RotateRows(ct, out)
 		} else {
 			out, err = eval.RotateRowsNew(ct)
@@ -410,7 +454,7 @@ func runBGVRot(c BGVRotCase, rec *h.Rec) error {
 		}
 	case "rowsCols":
 		k := c.Ks[0]
-		a := bgv.NewCiphertext(p, 1, c.Level)
+		a := recv
 		if err = eval.RotateRows(ct, a); err != nil {
 			return opErr("bgv", "RotateRows", err, keys, "")
 		}
@@ -462,6 +506,9 @@ func runBGVRot(c BGVRotCase, rec *h.Rec) error {
 		return h.Failf("C11:harness:mode", "unknown mode %q", c.Mode)
 	}
 
+	if ch := sameSnapshot(snap, snapshot(ctx.sk, keys)); ch != "" {
+		return h.Failf("C11:bgv:"+c.Mode+":key-material-modified", "%s changed during the operations", ch)
+	}
 	// the input ciphertext is untouched by the out-of-place variants
 	if c.Mode != "chain" {
 		if err := check("input-intact", ct, vals, "input after "+c.Mode); err != nil {
@@ -509,6 +556,7 @@ type SumArgs struct {
 	N       int    `json:"n"`
 	InPlace bool   `json:"inPlace,omitempty"`
 	OutMax  bool   `json:"outMax,omitempty"` // receiver allocated at the maximum level instead of the input level
+	LogTr   int    `json:"logTr,omitempty"`  // Trace: the argument logN (n is then the ring degree, for the noise bound)
 }
 
 // genSumArgs draws an operation and (batch, n) in its documented domain. cols is the length of one row (the period of
@@ -616,7 +664,10 @@ type BGVSumCase struct {
 
 func (c BGVSumCase) RandSeed() uint64 { return c.Seed }
 
-var bgvSumOps = []string{"InnerSum", "InnerSum", "RotateAndAdd", "RotateAndAdd", "Replicate", "PartialTracesSum", "InnerFunction"}
+var bgvSumOps = []string{"InnerSum", "InnerSum", "RotateAndAdd", "RotateAndAdd", "Replicate", "PartialTracesSum", "InnerFunction", "Trace"}
+
+// hoistedSum reports whether the operation is built on PartialTracesSum (needs an auxiliary modulus and keys at MaxLevelP).
+func hoistedSum(op string) bool { return op != "InnerFunction" && op != "Trace" }
 
 func genBGVSum(t *rapid.T) BGVSumCase {
 	var c BGVSumCase
@@ -624,12 +675,16 @@ func genBGVSum(t *rapid.T) BGVSumCase {
 	// set is drawn for the worst case of the ring degree.
 	op := bgvSumOps[rapid.IntRange(0, len(bgvSumOps)-1).Draw(t, "op")]
 	// every operation built on PartialTracesSum hoists and needs an auxiliary modulus; InnerFunction does not
-	c.Set = genBGVSet(t, modReq{needP: op != "InnerFunction", termsN: true})
+	c.Set = genBGVSet(t, modReq{needP: hoistedSum(op), termsN: true})
 	c.Level = rapid.IntRange(0, len(c.Set.P.Q)-1).Draw(t, "level")
-	c.Set.Keys = genSetKeys(t, &c.Set.P.RLWESpec, c.Level, op != "InnerFunction")
+	c.Set.Keys = genSetKeys(t, &c.Set.P.RLWESpec, c.Level, hoistedSum(op))
 	c.Seed = rapid.Uint64().Draw(t, "seed")
 	total := tSlots(c.Set.P.T, c.Set.P.LogN)
 	c.Args = genSumArgs(t, op, total/2, total)
+	if op == "Trace" {
+		c.Args.Batch, c.Args.N = 1, c.Set.P.N()
+		c.Args.LogTr = rapid.IntRange(0, c.Set.P.LogN-1).Draw(t, "logTr")
+	}
 	return c
 }
 
@@ -704,32 +759,47 @@ func runBGVSum(c BGVSumCase, rec *h.Rec) error {
 		galEls = p.GaloisElementsForReplicate(a.Batch, a.N)
 	case "PartialTracesSum", "InnerFunction":
 		galEls = rlwe.GaloisElementsForInnerSum(p, a.Batch, a.N)
+	case "Trace":
+		galEls = p.GaloisElementsForTrace(a.LogTr)
 	}
 	keys := keysFor(ctx.kgen, ctx.sk, galEls, c.Set.Bpw2, c.Set.Keys)
 	eval := bgv.NewEvaluator(p, keys)
 
+	snap := snapshot(ctx.sk, keys)
 	out := ct
 	if !a.InPlace {
 		lvl := c.Level
 		if a.OutMax {
 			lvl = p.MaxLevel()
 		}
-		out = bgv.NewCiphertext(p, 1, lvl)
+		// the receiver had an earlier life (other data, other scale, possibly a higher level)
+		if out, err = ctx.usedReceiver(lvl, c.Seed); err != nil {
+			return err
+		}
 	}
 	detail := fmt.Sprintf("%s(batch=%d, n=%d) N=%d slots=2x%d level=%d inPlace=%v", a.Op, a.Batch, a.N, p.N(), cols, c.Level, a.InPlace)
-	switch a.Op {
-	case "InnerSum":
-		err = eval.InnerSum(ct, a.Batch, a.N, out)
-	case "RotateAndAdd":
-		err = eval.RotateAndAdd(ct, a.Batch, a.N, out)
-	case "Replicate":
-		err = eval.Replicate(ct, a.Batch, a.N, out)
-	case "PartialTracesSum":
-		err = eval.PartialTracesSum(ct, a.Batch, a.N, out)
-	case "InnerFunction":
-		// documented: with f = Add the method is equivalent to InnerSum
-		err = eval.InnerFunction(ct, a.Batch, a.N, func(x, y, z *rlwe.Ciphertext) error { return eval.Add(x, y, z) }, out)
+	if a.Op == "Trace" {
+		detail = fmt.Sprintf("Trace(logN=%d) N=%d slots=2x%d level=%d inPlace=%v", a.LogTr, p.N(), cols, c.Level, a.InPlace)
 	}
+	apply := func() error {
+		switch a.Op {
+		case "InnerSum":
+			return eval.InnerSum(ct, a.Batch, a.N, out)
+		case "RotateAndAdd":
+			return eval.RotateAndAdd(ct, a.Batch, a.N, out)
+		case "Replicate":
+			return eval.Replicate(ct, a.Batch, a.N, out)
+		case "PartialTracesSum":
+			return eval.PartialTracesSum(ct, a.Batch, a.N, out)
+		case "InnerFunction":
+			// documented: with f = Add the method is equivalent to InnerSum
+			return eval.InnerFunction(ct, a.Batch, a.N, func(x, y, z *rlwe.Ciphertext) error { return eval.Add(x, y, z) }, out)
+		case "Trace":
+			return eval.Trace(ct, a.LogTr, out)
+		}
+		return nil
+	}
+	err = apply()
 	if err != nil {
 		return opErr("bgv", a.Op, err, keys, detail)
 	}
@@ -791,6 +861,26 @@ func runBGVSum(c BGVSumCase, rec *h.Rec) error {
 				compare[j], compare[cols+j] = true, true
 			}
 		}
+	case "Trace":
+		// The trace keeps the coefficients of the plaintext polynomial that are fixed by the subgroup generated by
+		// 5^(2^logN) (and X -> X^-1 for logN = 0) and zeroes the others: in the slot domain every slot becomes the
+		// average (times cnt^-1 mod t) of the slots of its orbit under the rotations by multiples of 2^logN (and the row
+		// swap for logN = 0).
+		cnt := (p.N() / 2) >> a.LogTr
+		s0, s1 := sumRotU(r0, 1<<a.LogTr, cnt, T), sumRotU(r1, 1<<a.LogTr, cnt, T)
+		if a.LogTr == 0 {
+			for j := range s0 {
+				s0[j] = (s0[j] + s1[j]) % T
+				s1[j] = s0[j]
+			}
+			cnt *= 2
+		}
+		inv := invModU(uint64(cnt)%T, T)
+		for j := 0; j < cols; j++ {
+			want[j] = mulModU(s0[j], inv, T)
+			want[cols+j] = mulModU(s1[j], inv, T)
+			compare[j], compare[cols+j] = true, true
+		}
 	case "Replicate":
 		copy(want[:cols], sumRotU(r0, -a.Batch, a.N, T))
 		copy(want[cols:], sumRotU(r1, -a.Batch, a.N, T))
@@ -831,6 +921,24 @@ func runBGVSum(c BGVSumCase, rec *h.Rec) error {
 			return h.Failf("C11:bgv:"+a.Op+":input-modified", "%s: input slot %d changed from %d to %d", detail, i, vals[i], back[i])
 		}
 	}
+	if !a.InPlace {
+		// second use of the same evaluator into the same receiver (which now holds the first result)
+		if err = apply(); err != nil {
+			return opErr("bgv", a.Op, err, keys, detail+" (second use)")
+		}
+		again, err := ctx.decrypt(out)
+		if err != nil {
+			return err
+		}
+		for j := range want {
+			if compare[j] && again[j] != want[j] {
+				return h.Failf("C11:bgv:"+a.Op+":second-use:value", "%s: second evaluation into the same receiver: slot %d = %d, expected %d", detail, j, again[j], want[j])
+			}
+		}
+	}
+	if ch := sameSnapshot(snap, snapshot(ctx.sk, keys)); ch != "" {
+		return h.Failf("C11:bgv:"+a.Op+":key-material-modified", "%s: %s changed during the operation", detail, ch)
+	}
 
 	rec.Classf("op=%s", a.Op)
 	rec.Classf("logN=%d", c.Set.P.LogN)
@@ -842,8 +950,11 @@ func runBGVSum(c BGVSumCase, rec *h.Rec) error {
 	if a.InPlace {
 		rec.Class("in-place")
 	}
-	if a.nonTrivial(cols, total) || total < p.N() {
-		rec.NonTrivial(fmt.Sprintf("bgvsum|%s|logN=%d|slots=%d|nP=%d|lvl=%d/%d|batch=%d|n=%d|inplace=%v", a.Op, c.Set.P.LogN, total, len(c.Set.P.P), c.Level, len(c.Set.P.Q)-1, a.Batch, a.N, a.InPlace))
+	if a.Op == "Trace" {
+		rec.Classf("logTr=%d/%d", a.LogTr, c.Set.P.LogN)
+	}
+	if a.nonTrivial(cols, total) || total < p.N() || a.Op == "Trace" {
+		rec.NonTrivial(fmt.Sprintf("logTr=%d|bgvsum|%s|", a.LogTr, a.Op) + fmt.Sprintf("bgvsum|%s|logN=%d|slots=%d|nP=%d|lvl=%d/%d|batch=%d|n=%d|inplace=%v", a.Op, c.Set.P.LogN, total, len(c.Set.P.P), c.Level, len(c.Set.P.Q)-1, a.Batch, a.N, a.InPlace))
 	}
 	return nil
 }
